@@ -115,7 +115,7 @@ theorem step_set {H : Home} {tw : Ticket → Bool} {d : Doc} {L : Int} {src : So
   refine ⟨_, _, uexecute_set bd hL g hsrc hd hb hf, ?_⟩
   have hnode := absNode_setRes (ts := ts) w g hd hr hb hf
   have hskel := skel_setRes (ts := ts) g hd hb hf
-  have hwf := WF_setRes (ts := ts) w g hd hb hf
+  have hwf := WF_setRes (ts := ts) w g hd hr hb hf
   have hpid : p ≠ val.id := by
     intro h
     have := skel_none_iff.1 g.hnc pe (h ▸ hd)
@@ -136,7 +136,7 @@ theorem step_set {H : Home} {tw : Ticket → Bool} {d : Doc} {L : Int} {src : So
     | some c =>
       obtain ⟨⟨b, hb', hbl⟩, htwc⟩ := g.hold c hfk
       obtain ⟨ce, hce, hcr, hcl, hbeq⟩ := absNode_leaf hb' hbl
-      obtain ⟨hkc, hpc, hlc⟩ := fk_home w hd hb hf hfk
+      obtain ⟨hkc, hpc, hlc⟩ := fk_home w hd hr hb hf hfk
       have hcid : c ≠ val.id := by
         intro h; subst h
         have := absNode_none_iff.1 g.hdead; rw [hlc] at this; cases this
@@ -189,10 +189,10 @@ theorem step_remove {H : Home} {tw : Ticket → Bool} {d : Doc} {L : Int} {src :
       StepRes H tw d (.remove p u ts0) ts.lamport d' rev := by
   obtain ⟨f, g⟩ := g
   obtain ⟨pe, keys, member, hd, hr, hb, hf⟩ := absNode_obj g.hp
-  refine ⟨_, _, uexecute_remove w bd hL g hsrc hd hb hf, ?_⟩
+  refine ⟨_, _, uexecute_remove w bd hL g hsrc hd hr hb hf, ?_⟩
   obtain ⟨b, hbu, hbl⟩ := g.hleaf
   obtain ⟨ce, hce, hcr, hcl, hbeq⟩ := absNode_leaf hbu hbl
-  obtain ⟨_, hparu, _⟩ := fk_home w hd hb hf g.hk
+  obtain ⟨_, hparu, _⟩ := fk_home w hd hr hb hf g.hk
   have hpu : p ≠ u := by
     intro h; subst h; rw [hd] at hce; injection hce with hce; subst hce; simp [hb, leafBody] at hcl
   have hnc : skel d u = none :=
